@@ -41,6 +41,8 @@ RULE_CONSTRAINTS = [
 def api_calls(schema, cfg, doc, update):
     """every entry point; returns list of (api, exception or None)"""
     out = []
+    import spell
+    schema, cfg = spell.respell(schema, cfg, doc)         # one case in three: the top-level rule sets in a shorthand spelling
     for api in ("validate", "validate_nonorm", "validated", "normalized", "errors"):
         try:
             v = pool.PoolValidator(copy.deepcopy(schema), **copy.deepcopy(cfg))
@@ -120,6 +122,16 @@ def run(ctx):
     for c in ({"schema": {}, "config": {"allow_unknown": au}, "document": {'u': {}}, "update": False},
               {"schema": {'a': {'type': 'dict', 'allow_unknown': au, 'schema': {}}}, "config": {}, "document": {'a': {'u': {}}}, "update": False}):
         check_case(c, violations, dist)
+    # (1c) directed: the rules for unknown fields given to the CONSTRUCTOR in the documented shorthand spellings (every entry point
+    # that takes a definition has to expand it), on documents with unknown fields of every shape
+    for au2 in ({'anyof_type': ['string', 'integer']}, {'type': 'dict', 'valueschema': {'type': 'integer'}}, {'type': 'dict', 'keyschema': {'type': 'string'}},
+                {'type': 'dict', 'allow unknown': True, 'schema': {}}, {'oneof_min': [1, 5]}, {'type': 'list', 'schema': {'noneof_type': ['string']}},
+                {'validator': 'even'}, {'type': 'dict', 'schema': {'x': {'allof_regex': ['a.*', '.*b']}}}):
+        for shape in SHAPES:
+            for sch in ({}, {'k': {'type': 'string'}}):
+                c = {"schema": sch, "config": {"allow_unknown": copy.deepcopy(au2)}, "document": {'u': shape, 'k': 'v'}, "update": False}
+                if check_case(c, violations, dist):
+                    distinct.add(json.dumps(vrun.case_json(c), sort_keys=True, default=repr))
     # (2) generated cases with the wrong-shape stream forced
     for kw in ({"p_mismatch": 0.35}, {"p_mismatch": 0.12}, {"normalization": True, "p_mismatch": 0.2},
                {"normalization": True, "nested_bias": True, "max_depth": 4}):
